@@ -307,6 +307,43 @@ fn body(name: &str, tid: usize) -> Vec<Vec<u8>> {
             out.extend(restored);
             out
         }
+        // a thread that keeps its codecs in its own lazily filled thread-local slot and exits while owning them:
+        // the slot is registered before the library runs (so any per-thread state of the library is registered
+        // later and, on a real thread, destroyed earlier), the codecs are dropped by the slot's destructor
+        // (the controlled scheduler destroys thread-locals in order of initialisation, real threads in reverse
+        // order: "tls-owner" touches its slot before the library runs, "tls-owner-late" only afterwards, so that
+        // both relative orders of the slot and any per-thread state of the library are explored)
+        "tls-owner" | "tls-owner-late" => {
+            shuttle::thread_local! {
+                static SLOT: std::cell::RefCell<Vec<Box<dyn std::any::Any>>> = std::cell::RefCell::new(Vec::new());
+            }
+            if name == "tls-owner" {
+                SLOT.with(|s| assert!(s.borrow().is_empty()));
+            }
+            let mut enc = ReedSolomonEncoder::new(3, 2, 64).unwrap();
+            for o in &ORIG {
+                enc.add_original_shard(o).unwrap();
+            }
+            let rec: Vec<Vec<u8>> = enc.encode().unwrap().recovery_iter().map(|s| s.to_vec()).collect();
+            let mut dec = ReedSolomonDecoder::new(3, 2, 64).unwrap();
+            dec.add_original_shard(0, ORIG[0]).unwrap();
+            dec.add_recovery_shard(1, &rec[1]).unwrap();
+            dec.add_recovery_shard(0, &rec[0]).unwrap();
+            let restored: Vec<Vec<u8>> = dec.decode().unwrap().restored_original_iter().map(|(_, s)| s.to_vec()).collect();
+            assert_eq!(restored, vec![ORIG[1].to_vec(), ORIG[2].to_vec()]);
+            // a second pair in the middle of a round
+            let mut enc2 = ReedSolomonEncoder::new(3, 2, 64).unwrap();
+            enc2.add_original_shard(ORIG[0]).unwrap();
+            SLOT.with(|s| {
+                let mut v = s.borrow_mut();
+                v.push(Box::new(enc));
+                v.push(Box::new(dec));
+                v.push(Box::new(enc2));
+            });
+            let mut out = rec;
+            out.extend(restored);
+            out
+        }
         "oneshot" => {
             let rec = rs_ported::encode(3, 2, ORIG).unwrap();
             let rest = rs_ported::decode(3, 2, [(2usize, ORIG[2])], [(0usize, &rec[0]), (1, &rec[1])]).unwrap();
@@ -391,6 +428,8 @@ fn scenarios(thorough: bool) -> Vec<(Scenario, Vec<usize>, usize)> {
         // of 2, budgets and pools derived from it are exhausted by two threads)
         (s("bigdec||bigdec", &["bigdec", "bigdec"]), if thorough { vec![0, 1, 2] } else { vec![0, 1] }, 400_000),
         (s("handover", &["handover"]), if thorough { vec![0, 1, 2, 3, all] } else { vec![0, 1, 2, 3] }, 400_000),
+        // threads that exit while their own thread-local slot owns codecs (also one in the middle of a round)
+        (s("tls-owner||tls-owner-late", &["tls-owner", "tls-owner-late"]), if thorough { vec![0, 1, 2] } else { vec![0, 1] }, 400_000),
     ];
     if thorough {
         v.extend(vec![
